@@ -1,7 +1,8 @@
 CONSTANTS
   NInst = 1
   Regs = {1, 2}
-  OutSels = {0, 1}
+  OutSels = {0, 1, 2}
+  OutSelsRen = {0, 1}
   ReAdmin = "keep"
   Design = "asfound"
   MaxOps = 16
